@@ -36,6 +36,7 @@ type resolveCase struct {
 	NoLock      bool      `json:"noLock,omitempty"`   // the Lock object does not exist yet
 	SelfIn      bool      `json:"selfIn,omitempty"`   // the revision is already in the lock
 	Inactive    bool      `json:"inactive,omitempty"` // desired state Inactive
+	Relocated   bool      `json:"relocated,omitempty"` // the lock holds this revision under another source (image moved registries)
 }
 
 const selfRev = "self-rev"
@@ -75,7 +76,11 @@ func (c resolveCase) revision() v1.PackageRevision {
 func (c resolveCase) lockPackages() []v1beta1.LockPackage {
 	out := world{Lock: c.Lock}.lockPackages()
 	if c.SelfIn {
-		self := v1beta1.LockPackage{Name: selfRev, Source: c.SelfID, Version: c.SelfVersion, APIVersion: ptr.To(pkgGroup + "/v1"), Kind: ptr.To("Configuration"), Dependencies: []v1beta1.Dependency{}}
+		src := c.SelfID
+		if c.Relocated {
+			src = "xpkg.old.example/acme/p0"
+		}
+		self := v1beta1.LockPackage{Name: selfRev, Source: src, Version: c.SelfVersion, APIVersion: ptr.To(pkgGroup + "/v1"), Kind: ptr.To("Configuration"), Dependencies: []v1beta1.Dependency{}}
 		for _, d := range c.Direct {
 			self.Dependencies = append(self.Dependencies, d.toAPI())
 		}
@@ -101,6 +106,7 @@ func genResolveCase() *rapid.Generator[resolveCase] {
 		c := resolveCase{SelfID: repoIDs[0], SelfVersion: genVersion().Draw(t, "selfver")}
 		c.Inactive = rapid.IntRange(0, 19).Draw(t, "inactive") == 7
 		c.SelfIn = rapid.IntRange(0, 2).Draw(t, "selfin") == 0
+		c.Relocated = c.SelfIn && rapid.IntRange(0, 9).Draw(t, "relocated") == 4
 		// a layered (mostly acyclic) world over the other repositories, all present in the lock
 		vers := map[string]string{}
 		others := repoIDs[1:]
@@ -173,6 +179,9 @@ func checkResolve(t failer, rec *verifkit.Recorder, c resolveCase) {
 	m := revision.NewPackageDependencyManager(s.Client("revision"), dag.NewMapDag, v1.ConfigurationGroupVersionKind)
 	found, installed, invalid, err := m.Resolve(context.Background(), c.meta(), c.revision())
 	rec.Labelf("resolve nil-error=%v", err == nil)
+	if c.Relocated {
+		rec.Label("resolve: revision relocated to another source")
+	}
 	if c.Inactive {
 		rec.Label("resolve: inactive revision (not judged)")
 		return
